@@ -1,7 +1,6 @@
 /-
   Scc.Fun2Core.SemSim6 — simulation of the evaluation of direct producers in statement position
-  (`⟦t⟧_c = ⟨compile t | c⟩`), and the lemmas about `share` and the capture guard used by the cases
-  `if`, `case`, `let` of the simulation.
+  (`⟦t⟧_c = ⟨compile t | c⟩`).
 -/
 import Scc.Fun2Core.SemSim5
 
@@ -10,84 +9,103 @@ open Scc
 
 variable {q : Core.Prog} {p : Fun.CheckedProgram}
 
+/-- a good term in evaluation position that is a direct producer -/
+def evalDirect : Fun.Term → Bool
+  | .var .. => true
+  | .lit _ => true
+  | .op .. => true
+  | .ctor .. => true
+  | .paren t => evalDirect t
+  | _ => false
+
 /-- the translation of a direct producer with a consumer is the cut of its translation as a
-producer with the consumer -/
-theorem cwc_direct : ∀ (t : Fun.Term), pureD t = true → ∀ (c : Core.Term) (st : CompileState)
+producer with the consumer, at a type that is not codata -/
+theorem cwc_direct (hcod : CodOK p q) : ∀ (t : Fun.Term), evalDirect t = true → good p t = true →
+    ∀ (c : Core.Term) (st : CompileState)
     (s : Core.Stmt) (st' : CompileState), compileWithCont t c st = .ok (s, st') →
-    ∃ P τ cty, compile t τ st = .ok (P, st') ∧ s = .cut cty P c
-  | .var x vty chi, _, c, st, s, st', h => by
+    pureD p (goodClauses p) t = true ∧
+    ∃ P τ cty, compile t τ st = .ok (P, st') ∧ s = .cut cty P c ∧
+      Core.isCodata q.codataTypes cty = false
+  | .var x vty chi, _, hg, c, st, s, st', h => by
     rw [cwc_var] at h
-    cases vty with
-    | none => simp at h
-    | some t0 =>
-      simp only [Except.ok.injEq, Prod.mk.injEq] at h
-      obtain ⟨rfl, rfl⟩ := h
-      exact ⟨_, .i64, _, by rw [c_var], rfl⟩
-  | .lit k, _, c, st, s, st', h => by
+    simp only [good] at hg
+    obtain ⟨t0, rfl, hnc⟩ := hcod.ncd hg
+    simp only [Except.ok.injEq, Prod.mk.injEq] at h
+    obtain ⟨rfl, rfl⟩ := h
+    exact ⟨rfl, _, .i64, _, by rw [c_var], rfl, hnc⟩
+  | .lit k, _, _, c, st, s, st', h => by
     rw [cwc_lit] at h
     simp only [Except.ok.injEq, Prod.mk.injEq] at h
     obtain ⟨rfl, rfl⟩ := h
-    exact ⟨_, .i64, _, by rw [c_lit], rfl⟩
-  | .op a o b, _, c, st, s, st', h => by
+    exact ⟨rfl, _, .i64, _, by rw [c_lit], rfl, rfl⟩
+  | .op a o b, _, hg, c, st, s, st', h => by
     rw [cwc_op] at h
+    simp only [good, Bool.and_eq_true] at hg
     cases hc : compile (.op a o b) .i64 st with
     | error e => simp [hc] at h
     | ok r =>
       obtain ⟨P, st1⟩ := r
       simp only [hc, Except.ok.injEq, Prod.mk.injEq] at h
       obtain ⟨rfl, rfl⟩ := h
-      exact ⟨P, .i64, _, hc, rfl⟩
-  | .ctor K as cty0, _, c, st, s, st', h => by
+      exact ⟨by simp [pureD, goodP_pureFO p a hg.1, goodP_pureFO p b hg.2], P, .i64, _, hc, rfl, rfl⟩
+  | .ctor K as cty0, _, hg, c, st, s, st', h => by
     rw [cwc_ctor] at h
-    cases cty0 with
-    | none => simp at h
-    | some t0 =>
-      simp only at h
-      cases hc : compile (.ctor K as (some t0)) (compileTy t0) st with
-      | error e => simp [hc] at h
-      | ok r =>
-        obtain ⟨P, st1⟩ := r
-        simp only [hc, Except.ok.injEq, Prod.mk.injEq] at h
-        obtain ⟨rfl, rfl⟩ := h
-        exact ⟨P, _, _, hc, rfl⟩
-  | .paren t, hd, c, st, s, st', h => by
+    simp only [good, Bool.and_eq_true] at hg
+    obtain ⟨t0, rfl, hnc⟩ := hcod.ncd hg.2
+    simp only at h
+    cases hc : compile (.ctor K as (some t0)) (compileTy t0) st with
+    | error e => simp [hc] at h
+    | ok r =>
+      obtain ⟨P, st1⟩ := r
+      simp only [hc, Except.ok.injEq, Prod.mk.injEq] at h
+      obtain ⟨rfl, rfl⟩ := h
+      exact ⟨by simp [pureD, goodPs_pureFOs p as hg.1], P, _, _, hc, rfl, hnc⟩
+  | .paren t, hd, hg, c, st, s, st', h => by
     rw [cwc_paren] at h
-    obtain ⟨P, τ, cty, h1, h2⟩ := cwc_direct t (by simpa [pureD] using hd) c st s st' h
-    exact ⟨P, τ, cty, by rw [c_paren]; exact h1, h2⟩
-  | .ifc .., h, _, _, _, _, _ => by simp [pureD] at h
-  | .ifz .., h, _, _, _, _, _ => by simp [pureD] at h
-  | .print .., h, _, _, _, _, _ => by simp [pureD] at h
-  | .letIn .., h, _, _, _, _, _ => by simp [pureD] at h
-  | .call .., h, _, _, _, _, _ => by simp [pureD] at h
-  | .dtor .., h, _, _, _, _, _ => by simp [pureD] at h
-  | .case .., h, _, _, _, _, _ => by simp [pureD] at h
-  | .new .., h, _, _, _, _, _ => by simp [pureD] at h
-  | .label .., h, _, _, _, _, _ => by simp [pureD] at h
-  | .goto .., h, _, _, _, _, _ => by simp [pureD] at h
-  | .exit .., h, _, _, _, _, _ => by simp [pureD] at h
+    obtain ⟨h0, P, τ, cty, h1, h2, h3⟩ :=
+      cwc_direct hcod t (by simpa [evalDirect] using hd) (by simpa [good] using hg) c st s st' h
+    exact ⟨by simpa [pureD] using h0, P, τ, cty, by rw [c_paren]; exact h1, h2, h3⟩
+  | .ifc .., h, _, _, _, _, _, _ => by simp [evalDirect] at h
+  | .ifz .., h, _, _, _, _, _, _ => by simp [evalDirect] at h
+  | .print .., h, _, _, _, _, _, _ => by simp [evalDirect] at h
+  | .letIn .., h, _, _, _, _, _, _ => by simp [evalDirect] at h
+  | .call .., h, _, _, _, _, _, _ => by simp [evalDirect] at h
+  | .dtor .., h, _, _, _, _, _, _ => by simp [evalDirect] at h
+  | .case .., h, _, _, _, _, _, _ => by simp [evalDirect] at h
+  | .new .., h, _, _, _, _, _, _ => by simp [evalDirect] at h
+  | .label .., h, _, _, _, _, _, _ => by simp [evalDirect] at h
+  | .goto .., h, _, _, _, _, _, _ => by simp [evalDirect] at h
+  | .exit .., h, _, _, _, _, _, _ => by simp [evalDirect] at h
 
 theorem CRel.inert {n : Nat} {k : Fun.Stack} {c : Core.Term} {ρ : CEnv}
-    (h : CRel GP q n k c ρ) : Inert c := by
+    (h : CRel (GP p) q n k c ρ) : Inert c := by
   cases h with
-  | mk _ _ hi _ => exact hi
+  | mk _ _ hi _ _ => exact hi
 
 theorem CRel.bound {n : Nat} {k : Fun.Stack} {c : Core.Term} {ρ : CEnv}
-    (h : CRel GP q n k c ρ) : BoundOn (tfvTerm c []) ρ := by
+    (h : CRel (GP p) q n k c ρ) : BoundOn (tfvTerm c []) ρ := by
   cases h with
-  | mk _ _ _ hb => exact hb
+  | mk _ _ _ hb _ => exact hb
+
+theorem CRel.tyOK {n : Nat} {k : Fun.Stack} {c : Core.Term} {ρ : CEnv}
+    (h : CRel (GP p) q n k c ρ) : Core.isCodata q.codataTypes (coreGetType c) = false := by
+  cases h with
+  | mk _ _ _ _ ht => exact ht
 
 /-- a direct producer in statement position -/
-theorem eval_direct (X : Ctx p q) {t : Fun.Term} (hd : pureD t = true) {env : Fun.Env}
+theorem eval_direct (X : Ctx p q) {t : Fun.Term} (hd : evalDirect t = true) (hg : good p t = true)
+    {env : Fun.Env}
     {k : Fun.Stack} {c : Core.Term} {s : Core.Stmt} {ρ0 ρ : CEnv} {out : Out} {n : Nat}
-    (hc : Compiled q n t c s) (he : EnvRel GP q n (fv t) env ρ0) (hr : CRel GP q n k c ρ0)
-    (hag : AgreeOn (tfvStmt s []) ρ0 ρ) :
-    Chunk p q (R q) true (.eval t env k) ⟨s, ρ, out, n⟩ := by
+    (hc : Compiled q n t c s) (he : EnvRel (GP p) q n (fv t) env ρ0) (hr : CRel (GP p) q n k c ρ0)
+    (hbd : BoundOn (tfvStmt s []) ρ0) (hag : AgreeOn (tfvStmt s []) ρ0 ρ) :
+    Chunk p q (R p q) true (.eval t env k) ⟨s, ρ, out, n⟩ := by
   obtain ⟨st, st', hcwc, hst, htn, hcn⟩ := hc
-  obtain ⟨P, τ, cty, hcP, rfl⟩ := cwc_direct t hd c st s st' hcwc
+  obtain ⟨hpd, P, τ, cty, hcP, rfl, hnc⟩ := cwc_direct X.cod t hd hg c st s st' hcwc
   have hagP : AgreeOn (tfvTerm P []) ρ0 ρ := hag.mono fun y hy => mem_tfv_cut.2 (.inl hy)
+  have hbdP : BoundOn (tfvTerm P []) ρ0 := hbd.mono fun y hy => mem_tfv_cut.2 (.inl hy)
   have hagc : AgreeOn (tfvTerm c []) ρ0 ρ := hag.mono fun y hy => mem_tfv_cut.2 (.inr hy)
-  have hea : EnvRel GP q n (fv t) env ρ := he.actual _ hagP (d_fv_tfv t hd _ _ _ _ hcP)
-  rcases direct_sim (p := p) X.hq X.hp t hd env k τ st P st' n ρ n hcP hea htn.fv_ne_sig with
+  rcases direct_sim (p := p) (goodClauses p) (goodClauses_find p) t hpd env k τ st P st' n ρ0 ρ n
+      hcP hst htn he hbdP hagP with
     ⟨v, j, hj, fj, hv⟩ | ⟨j, s1, w, fj, h1, h2⟩ | ⟨j, s1, w, r', fj, h1, h2, h3, h4, _⟩
   · cases hP : P.isVar with
     | true =>
@@ -95,18 +113,18 @@ theorem eval_direct (X : Ctx p q) {t : Fun.Term} (hd : pureD t = true) {env : Fu
       | var pc z ty =>
         obtain ⟨_, _, V, hl, hvr⟩ := hv.var pc z ty rfl
         exact Chunk.prefix fj (.refl _) rfl (fun _ => hj)
-          (pass_chunk X (A := .var pc z ty) rfl (by simpa [Core.prdVal] using hl) hvr hr hagc).weaken
+          (pass_chunk X hnc (A := .var pc z ty) rfl (by simpa [Core.prdVal] using hl) hvr hr hagc).weaken
       | _ => simp [Core.Term.isVar] at hP
     | false =>
       obtain ⟨i, ρ', n', P', V, hcs, hn', hext, hfoc, hval, hvr⟩ :=
         (hv.nonvar hP).1 c cty out hr.inert
       obtain ⟨ρ0', hext0, hag'⟩ := hext.agree (ρ0 := ρ0)
       exact Chunk.prefix fj hcs rfl (fun _ => hj)
-        (pass_chunk X hfoc hval (hvr.mono hn')
+        (pass_chunk X hnc hfoc hval (hvr.mono hn')
           ((hr.mono hn').sigExt hext0 (hcn.sig_lt (Nat.le_refl n))) (hag' _ hagc)).weaken
   · exact .inl ⟨j, s1, .stuck w, fj, by rw [h1]; rfl, fun hf => absurd hf (bad_not_finished h2)⟩
   · refine .inl ⟨j, s1, .stuck w, fj, by rw [h1]; rfl, fun _ => ?_⟩
-    obtain ⟨i, S1, hcs, ho, hs⟩ := h4 c cty out hr.inert
+    obtain ⟨i, S1, hcs, ho, hs⟩ := h4 c cty out hr.inert hnc
     exact ⟨i, S1, r', hcs, ho, hs, h2⟩
 
 end Scc.Fun2Core.Sem
